@@ -6,6 +6,7 @@ CLAIMED = {
  "C01": ("exploration", "Seeded search over schedules and fault sequences on a simulated 3/5-node cluster of real RaftNodes (SimTransport: loss, duplication, reordering, partitions; crashes between steps and inside WAL writes; restarts); the six Raft safety invariants are evaluated on the real nodes after every step.", "Sampling, not proof. Fixed membership, no compaction/InstallSnapshot; the tokio run loop is replaced by the kernel calling the same entry points.", TECH + " (SimTransport + interposed clock/disk, Raft invariants as run-time oracle, ddmin-minimised replay)", "DESIGN.md §6 C01"),
  "C02": ("fault_enumeration", "Seeded search over generated programs; for each program every mutating syscall boundary and sampled byte offsets of every log write are enumerated as crash points against the real store on a simulated disk, judged by a prefix-durability model; the rest of the program and a second recovery follow every crash.", "Sampling of programs, complete enumeration of syscall-boundary crash points per program; assumes atomic durable rename/truncate, prefix-granular power loss on log files only.", TECH + " (crash-point enumeration on an interposed disk, prefix-durability reference model)", "DESIGN.md §6 C02"),
  "C10": ("fault_enumeration", "One real WAL-backed RaftNode driven by scripted peers through elections, votes, appends, conflict truncations, leadership and proposals; every mutating syscall boundary and sampled byte offsets of every WAL write are crash points, up to three chained crashes; after each restart (real with_wal) term, vote and acknowledged entries are judged against the promises contained in the messages the node actually released.", "Sampling of programs, complete enumeration of syscall-boundary crash points per program; the two other voters are scripted; snapshot install/compaction not driven.", TECH + " (crash-point enumeration on an interposed disk, promise ledger oracle)", "DESIGN.md §6 C10"),
+ "C05": ("exploration", "Seeded search over thread schedules: 1-8 scheduled threads run short programs of node/edge create/delete/update (directed, undirected, self-loops, parallel edges, hubs) on the real GraphEngine; the baton scheduler switches threads at operation boundaries and at hook sites inside the adjacency read-modify-write and between the steps of create_edge/delete_edge/delete_node; at quiescence the five structural clauses and the create/delete accounting are checked through public calls only. Every fifth case is single-threaded (the sequential clause).", "Sampling of schedules (sticky random walks), not enumeration; switches only at hook sites and operation boundaries; node degree < 100 so the rayon branch of delete_node is not entered; TensorStore calls treated as atomic (C11 covers them).", TECH + " (baton scheduler over hook sites, structural invariant oracle at quiescence)", "DESIGN.md §6 C05"),
 }
 NA_PURE = {
  "C04": "pure function of table content and predicate: no schedule, clock, fault or peer to simulate",
